@@ -90,8 +90,16 @@ def main():
     def d2(ts):
         ts[1]["events"][5]["outcome"] = "Poisoned"
         return 1
+    def d3(ts):
+        # the faulted slot of a run that does not refuse it (the first such trace): recorded as pulled away during the dropout
+        for k_, tr in enumerate(ts):
+            if tr["pattern"][3] == "acc0" and len(tr["events"]) > 3 and tr["events"][3]["outcome"] != "Rejected":
+                tr["events"][3]["held"] = False
+                return k_
+        ts[1]["events"][1]["held"] = False
+        return 1
     ok &= demo("C13 TraceDropout", "TraceDropout", core.spec_cfg("TraceDropout"), traces,
-               [("'close' cleared 6 slots after the dropout", d1), ("one outcome changed to Poisoned", d2)])
+               [("'close' cleared 6 slots after the dropout", d1), ("one outcome changed to Poisoned", d2), ("'held' cleared in a faulted slot", d3)])
     # ---- C05 / TraceConvergence
     from vf.props import c05
     traces = []
